@@ -315,3 +315,48 @@ Proof.
       rewrite cok_stage_34; [assumption| |]; unfold b0; autorewrite with box; auto.
     + apply Hsimb. intros Hs. rewrite <- (Hskel Hs) at 1. assumption.
 Qed.
+
+(* ------------------------------------------------------------------ totality *)
+Lemma iib_lines_total b children : forall line_rev out_rev,
+  Forall (fun c => is LineT c = false) children -> exists out, iib_lines b children line_rev out_rev = Ok out.
+Proof.
+  induction children as [|c children IH]; intros line_rev out_rev H; simpl.
+  - destruct line_rev; [eauto|]. destruct out_rev; eauto.
+  - inversion H; subst. rewrite H2.
+    destruct ((match line_rev with [] => false | _ :: _ => true end) && abspos c); [apply IH; assumption|].
+    destruct (inline_level_t (ty c) || (match line_rev with [] => false | _ :: _ => true end) && negb (in_flow c)).
+    + destruct ((match line_rev with [] => false | _ :: _ => true end) || negb (lone_space c)); apply IH; assumption.
+    + apply IH; assumption.
+Qed.
+
+Lemma iib_list_total l :
+  Forall (fun c => exists c', inline_in_block c = Ok c') l -> exists l', iib_list l = Ok l'.
+Proof.
+  induction 1 as [|c l [c' Hc] Hl [l' IH]]; simpl; [eauto|].
+  destruct (empty_text c); [eauto|]. rewrite Hc. simpl. rewrite IH. simpl. eauto.
+Qed.
+
+(* InlineInBlock never panics on a tree the first three passes produced *)
+Theorem iib_total : forall b, tree (cok 3) b = true -> exists b', inline_in_block b = Ok b'.
+Proof.
+  induction b as [t a m l IH] using box_ind'. intros Ht.
+  pose proof Ht as Ht0. apply tree_inv in Ht. destruct Ht as [Hk Hkids]. simpl ch in Hkids.
+  rewrite iib_unfold. simpl ch.
+  destruct l as [|c0 l0] eqn:El; [eauto|]. rewrite <- El in *. clear El c0 l0.
+  rewrite (cok_not_running _ _ Hk).
+  destruct (iib_list_total l) as [children Hc].
+  { rewrite Forall_forall in *. intros c Hin. apply IH; auto. }
+  rewrite Hc. cbn [bind]. simpl ty.
+  destruct (block_container_t t) eqn:Ebc; simpl negb; cbv iota; [|eauto].
+  (* no child is a line box: children are sim to boxes that are not *)
+  assert (Hnl : Forall (fun c => is LineT c = false) children).
+  { eapply (iib_list_spec (fun c c' => tree (cok 4) c' = true /\ sim c c')) in Hc.
+    2:{ rewrite Forall_forall in *. intros c Hin c' Hc'. apply (iib_typed c c'); auto. }
+    assert (Hsrc : Forall (fun c => is LineT c = false) (filter keep l)).
+    { apply filter_Forall. eapply Forall_impl; [|exact Hkids]. intros c Hc0.
+      apply tree_inv in Hc0. destruct Hc0 as [Hc0 _]. apply is_false_iff. intros E.
+      unfold cok in Hc0. rewrite E in Hc0. simpl in Hc0. rewrite !Bool.andb_false_r in Hc0. discriminate. }
+    clear -Hc Hsrc. induction Hc as [|c c' l1 l2 [_ Hs] Hll IHs]; [constructor|].
+    inversion Hsrc; subst. constructor; [|auto]. rewrite (sim_is _ _ _ Hs). assumption. }
+  destruct (iib_lines_total (Box t a m l) children [] [] Hnl) as [out Ho]. rewrite Ho. simpl. eauto.
+Qed.
